@@ -72,6 +72,18 @@ namespace
     }
   };
 
+  template<typename Shape_, int d_ = Shape_::dimension>
+  struct CopyTargets
+  {
+    static void go(TargetSetHolder<Shape_>& dst, const TargetSetHolder<Shape_>& src)
+    {
+      CopyTargets<Shape_, d_ - 1>::go(dst, src);
+      auto& a = dst.template get_target_set<d_>(); const auto& b = src.template get_target_set<d_>();
+      for(Index i = 0; i < b.get_num_entities(); ++i) a[i] = b[i];
+    }
+  };
+  template<typename Shape_> struct CopyTargets<Shape_, -1> { static void go(TargetSetHolder<Shape_>&, const TargetSetHolder<Shape_>&) {} };
+
   /// builds a node around 'mesh' and checks write -> parse -> write
   template<typename Mesh_>
   void node_case(verif::Ctx& c, std::unique_ptr<Mesh_> mesh, const std::string& tag, int variant)
@@ -92,8 +104,15 @@ namespace
     const Index ncells = mesh->get_num_elements();
     BoundaryFactory<Mesh_> bf(*mesh);
     std::unique_ptr<MeshPart<Mesh_>> bnd = bf.make_unique();
-    std::unique_ptr<MeshPart<Mesh_>> bnd_t = bf.make_unique();
-    bnd_t->deduct_topology(*mesh->get_topology());
+    std::unique_ptr<MeshPart<Mesh_>> bnd_t;
+    {
+      // deduct_topology needs a part that was created with a topology: same target sets as the boundary part
+      Index sz[4] = {0, 0, 0, 0};
+      for(int d = 0; d <= Mesh_::shape_dim; ++d) sz[d] = bnd->get_num_entities(d);
+      bnd_t.reset(new MeshPart<Mesh_>(sz, true));
+      CopyTargets<ShapeType>::go(bnd_t->get_target_set_holder(), bnd->get_target_set_holder());
+      bnd_t->deduct_topology(*mesh->get_topology());
+    }
     {
       std::unique_ptr<AttributeSet<double>> at(new AttributeSet<double>(bnd_t->get_num_entities(0), 2));
       for(Index i = 0; i < bnd_t->get_num_entities(0); ++i) { (*at)(i, 0) = double(i) / 3.0; (*at)(i, 1) = -double(i) * 0.25; }
@@ -233,21 +252,20 @@ int main(int argc, char** argv)
       const std::string key = "shipped " + fn;
       // files without 'mesh' attribute: type from a companion or default
       Parsed p = parse_mesh(text, "conformal:hypercube:2:2", true, true);
-      std::vector<const std::string*> comp;
-      std::vector<std::string> comp_text;
       if(p.kind == K_LINKER)
       {
-        // mesh refers to charts of a separate file: take every shipped file without <Mesh that shares the name prefix
-        std::string prefix = fn.substr(0, fn.find('_'));
+        // the mesh refers to charts kept in a separate file: try the shipped chart-only files one at a time
+        bool found = false;
         for(const std::string& o : files)
         {
-          if(o == fn || o.compare(0, prefix.size(), prefix) != 0) continue;
+          if(o == fn) continue;
           std::string t; if(!read_file(repo + "/data/meshes/" + o, t)) continue;
-          if(t.find("<Mesh ") != std::string::npos) continue;
-          comp_text.push_back(t);
+          if(t.find("<Mesh ") != std::string::npos || t.find("<Chart ") == std::string::npos) continue;
+          std::vector<const std::string*> comp; comp.push_back(&t);
+          Parsed q = parse_mesh(text, "conformal:hypercube:2:2", true, true, comp);
+          if(q.kind == K_OK) { p = q; found = true; c.count("shipped_files_parsed_with_chart_file"); break; }
         }
-        for(auto& t : comp_text) comp.push_back(&t);
-        if(!comp.empty()) { p = parse_mesh(text, "conformal:hypercube:2:2", true, true, comp); c.count("shipped_files_parsed_with_chart_file"); }
+        if(!found) { c.excluded("shipped mesh file whose charts are not among the shipped files: " + fn); c.outcome("shipped: needs external chart"); continue; }
       }
       if(p.kind == K_BADTYPE) { c.excluded("shipped file of a mesh type the harness does not instantiate: " + p.what); continue; }
       if(p.kind == K_OK && p.type.empty()) { }
